@@ -265,7 +265,11 @@ func (h *half) write(p []byte) (int, error) {
 		return 0, &net.OpError{Op: "write", Net: "tcp", Err: net.ErrClosed}
 	}
 	if h.rclosed {
-		return 0, &net.OpError{Op: "write", Net: "tcp", Err: os.NewSyscallError("write", syscall.EPIPE)}
+		// The peer has closed its end. A TCP stack accepts (and then drops)
+		// such data until a reset comes back; whether and when the writer
+		// notices is timing dependent in reality. The benign choice is made:
+		// the write succeeds and the bytes are discarded.
+		return len(p), nil
 	}
 	c := cfg.Load()
 	now := time.Now()
